@@ -258,7 +258,7 @@ func c20Variants() []Variant {
 	f := "core/tx_pool.go"
 	return []Variant{
 		{Name: "stats-without-lock", File: f, Old: "func (pool *TxPool) TransactionsNumber() (int, int) {\n	pool.mu.RLock()\n	defer pool.mu.RUnlock()\n", New: "func (pool *TxPool) TransactionsNumber() (int, int) {\n", Rule: "C20.L1", Construct: "TransactionsNumber"},
-		{Name: "add-without-price-index", File: f, Old: "	pool.all.Add(tx)\n	pool.priced.Put(tx)\n", New: "	pool.all.Add(tx)\n", Rule: "C20.L2", Construct: "all.Add"},
+		{Name: "add-without-price-index", File: f, Old: "		pool.all.Add(tx)\n		pool.priced.Put(tx)\n		pool.journalTx(from, tx)", New: "		pool.all.Add(tx)\n		pool.journalTx(from, tx)", Rule: "C20.L2", Construct: "all.Add"},
 		{Name: "enqueue-before-validate", File: f, Old: "	// If the transaction fails basic validation, discard it\n	if err := pool.validateTx(tx, local); err != nil {", New: "	pool.enqueueTx(hash, tx)\n	// If the transaction fails basic validation, discard it\n	if err := pool.validateTx(tx, local); err != nil {", Rule: "C20.L3", Construct: "enqueueTx"},
 	}
 }
